@@ -22,6 +22,10 @@ def _tag(line, out):
 
 def run(ctx):
     ctx.modelled += [
+        "modelled API: f64.Int[T] Add Sub Mul Div Mod Abs Trunc Ceil Round Min Max Inc Dec, built-in comparisons, "
+        "From/As (11 integer kinds), Multiplier, MaxDecimalDigits, MaxSafeMultiply, Fraction.Normalize/Value; "
+        "f128.Int[T] the same plus Neg Cmp Equal LessThan LessThanOrEqual GreaterThan GreaterThanOrEqual Maximum "
+        "Minimum; all 16 configurations, multiplier taken from the regenerated Facts.fixedConfigs",
         "num.Uint128.Div is taken by its contract (floor division of the magnitudes, panic on zero); the 128-bit "
         "word-level arithmetic of num.Int128 is the subject of C01 and is modelled here on mathematical integers "
         "reduced by wrap128",
@@ -36,12 +40,14 @@ def run(ctx):
     ]
     ctx.lean(props=["Props.C03"], drivers=["drv_c03"])
     ctx.harness("./cmd/c03", overlay=OVERLAY)
-    thm = ("C03.f64_* / f128_* (model = exact truncated decimal arithmetic under the representability hypotheses); "
-           "impl != model on this input")
-    ctx.diff(area="fx", driver="drv_c03", n={"quick": 400000, "thorough": 12000000},
+    thm = ("C03.f64_mul_spec / f64_div_spec / f64_mod_spec / f64_trunc_spec / f64_ceil_spec / f64_round_spec / "
+           "f64_from_int_exact / f64_as_int_exact (and the f128_ twins), f64_f128_agree, mul_rational … : the model "
+           "equals exact decimal arithmetic truncated toward zero under the representability hypotheses, which hold "
+           "for every line of this stream; impl != model on this input")
+    ctx.diff(area="fx", driver="drv_c03", n={"quick": 400000, "thorough": 10000000},
              trivial=lambda l, o: l.split(" ")[2] in ("mult", "places", "maxsafe", "maximum", "minimum"),
              tagger=_tag, theorem=thm)
-    ctx.diff(area="fxwrap", driver="drv_c03", n={"quick": 200000, "thorough": 6000000},
+    ctx.diff(area="fxwrap", driver="drv_c03", n={"quick": 200000, "thorough": 5000000},
              tagger=lambda l, o: "wrap." + (_tag(l, o) or "?"),
              theorem="wrap-around / panic behaviour: the model transcribes Go's int64 and num.Int128 overflow "
                      "semantics; impl != model on this input",
